@@ -42,6 +42,7 @@ Inductive op :=
 | OReplaceCh (a b max from : N)
 | OReplaceS (rm wm : sarg) (max from : N)
 | OUnflatten (bytes : list N)
+| OUnflattenW (arena : list N) (win : N) (ps : list pre)   (* String::Unflatten on a windowed, partly consumed DataUnflattener *)
 | OReplaceMulti (pairs : list (list N * list N)) (max : N)
 | OSetAt (i ch : N)                      (* s[i] = ch through the non-const operator[] (valid index only) *)
 | OShiftInt (z : Z) | OShiftBool (b : bool)   (* operator<<(int), operator<<(bool) *)
@@ -708,6 +709,10 @@ Definition mutate (s : str1) (o : op) : option (str1 * out1) :=
   | OReplaceCh a b m f => let '(s', k) := replace_ch1 s a b m f in Some (s', R1Nat k)
   | OReplaceS rm wm m f => let '(s', k) := replace_s1 s (sa rm) (sa wm) m f in Some (s', R1Int k)
   | OUnflatten bytes => let '(e, s') := unflatten1 s bytes in Some (s', R1St e)
+  | OUnflattenW arena win ps =>
+      let r := run_pre arena win ps in
+      let '(e, s') := unflatten1 s (win_remaining arena win r) in
+      Some (s', R1Int (w_result (match e with StOk => true | StErr => false end) (snd (read_cstr_w arena win r))))
   | OReplaceMulti pairs m => Some (match replace_multi1 s pairs m with
                                    | (Some w, n) => (w, R1Int (Z.of_N n))          (* SwapContents(writeTo) *)
                                    | (None, n) => (s, R1Int (Z.of_N n)) end)
